@@ -171,7 +171,10 @@ class TagRun:
         if self.zero_at is not None and k == self.zero_at:
             self.zero_uid = set(us)
             return zero_when
-        self.sp.tested.update(us)
+        if len(us) == 1:
+            # only a test of ONE value's modulus establishes that this value is non-zero (a test of max(|a|,|b|,...) or of a
+            # norm of several entries says nothing about an individual entry)
+            self.sp.tested.update(us)
         return not zero_when
 
 
